@@ -1,4 +1,5 @@
 import MageModel.Parse.Ast
+import MageModel.Parse.Pkg
 /-!
 # C06 — targets are exactly the exported functions with a valid target signature (signature part)
 All ways of writing parameter and result lists: grouped names, unnamed and blank parameters, named results, any types.
@@ -272,6 +273,54 @@ theorem arity_agrees (params results : List Field) (f : FnSig) (h : funcType par
 
 /-! ### the pinned tree (D4): unnamed parameters produced no argument -/
 namespace Pinned
+/-! ### which declarations become targets -/
+
+theorem mem_sortBy {α} (key : α → String) (l : List α) (x : α) : x ∈ sortBy key l ↔ x ∈ l := by
+  unfold sortBy; exact (List.mergeSort_perm l _).mem_iff
+
+/-- what makes a declaration a target of its package: exported name, a valid target signature, and either no receiver
+or a receiver whose base type is an exported type declared as `mg.Namespace` -/
+def IsTargetDecl (p : Pkg) (d : FuncDecl) : Prop :=
+  d ∈ p.files.flatMap (·.funcs) ∧ exported d.name = true ∧ (∃ s, funcType d.params d.results = .ok s) ∧
+  (d.recv = none ∨ ∃ r t, d.recv = some r ∧ t ∈ p.files.flatMap (·.types) ∧ isNamespaceDecl t = true ∧ t.name = r.base)
+
+/-- **The targets of a package are exactly the exported functions (and methods on exported `mg.Namespace` types) with
+a valid target signature** — everything else is ignored, and nothing that qualifies is left out. -/
+theorem targets_exact (p : Pkg) (f : Function) :
+    f ∈ collectFuncs p ↔ ∃ d s, IsTargetDecl p d ∧ funcType d.params d.results = .ok s ∧ f = mkFunction d s := by
+  unfold collectFuncs IsTargetDecl
+  simp only []
+  generalize p.files.flatMap (·.funcs) = funcs
+  generalize p.files.flatMap (·.types) = types
+  simp only [List.mem_append, List.mem_flatMap, List.mem_filterMap, mem_sortBy, List.mem_filter, Bool.and_eq_true,
+    beq_iff_eq, Option.isNone_iff_eq_none]
+  constructor
+  · rintro (⟨t, ⟨ht, hns⟩, d, ⟨hd, hr, he⟩, hf⟩ | ⟨d, ⟨hd, hr, he⟩, hf⟩)
+    · cases hs : funcType d.params d.results with
+      | error e => rw [hs] at hf; cases hf
+      | ok s =>
+        rw [hs] at hf; simp only [Option.some.injEq] at hf
+        refine ⟨d, s, ⟨hd, he, ⟨s, hs⟩, Or.inr ?_⟩, hs, hf.symm⟩
+        cases hrv : d.recv with
+        | none => rw [hrv] at hr; simp at hr
+        | some r =>
+          rw [hrv] at hr
+          simp only [Option.map_some, Option.some.injEq] at hr
+          exact ⟨r, t, rfl, ht, hns, hr.symm⟩
+    · cases hs : funcType d.params d.results with
+      | error e => rw [hs] at hf; cases hf
+      | ok s =>
+        rw [hs] at hf; simp only [Option.some.injEq] at hf
+        exact ⟨d, s, ⟨hd, he, ⟨s, hs⟩, Or.inl hr⟩, hs, hf.symm⟩
+  · rintro ⟨d, s, ⟨hd, he, _, hrecv⟩, hs, rfl⟩
+    rcases hrecv with hr | ⟨r, t, hr, ht, hns, hname⟩
+    · right
+      exact ⟨d, ⟨hd, hr, he⟩, by rw [hs]⟩
+    · left
+      refine ⟨t, ⟨ht, hns⟩, d, ⟨hd, ?_, he⟩, by rw [hs]⟩
+      rw [hr]; simp [hname]
+
+
 /-- `for _, name := range param.Names` only -/
 def collectArgsPinned : List Field → List Arg
   | [] => []
